@@ -115,7 +115,7 @@ def run_shard(ctx):
         for f in objd.fixtures():
             with open(f, encoding="utf-8", errors="replace") as fh:
                 judge_listing(ctx, ws, fh.read(), "fixture:" + os.path.basename(f))
-    n = ctx.share(160, 6000)
+    n = ctx.share(160, 12000)
     for k in range(n):
         blob, secs, bits = objd.random_object(ctx.rng)
         op = ws.write("o.bin", blob)
